@@ -11,7 +11,7 @@ from ._wcommon import (ASSUMPTIONS, COMPONENTS_REAL, COMPONENTS_STUB, Hist, Viol
 from ._wcommon import abstract_states  # noqa: F401,E402
 
 ID = "C07"
-RUNS = {"quick": 8000, "thorough": 250000}
+RUNS = {"quick": 12000, "thorough": 250000}
 BUDGET_S = {"quick": 60, "thorough": 900}
 RULE = ("seeded scenario scripts: return values / Exception and BaseException classes / no-result, sync and async tasks, durations "
         "at +-1us around the timeout label, result-backend failures and latency on any subset of saves, object/JSON/pickle stores; "
